@@ -153,6 +153,7 @@ package tls
 //@ site check#3 as cks
 //@ site PutUint64#4 as psize
 //@ site marshalField#1 as rec
+//@ site (*bytes.Buffer).Len#1 as il
 //@ requires out != nil
 //@ requires info != nil ==> info.count <= 8
 //@ loop 1 invariant info != nil ==> info.count <= 8
@@ -165,6 +166,6 @@ package tls
 //@ at penum assert [enum-written-big-endian-after-the-check] penum.v == i && cke.res == nil && len(scratch) == 8
 //@ at ckl assert [byte-vector-length-checked-exactly-as-the-decoder-does] ckl.val == uint64(datalen) && ckl.i == *info
 //@ at plen assert [length-prefix-is-the-number-of-bytes] plen.v == uint64(datalen) && len(scratch) == 8
-//@ at cks assert [vector-size-checked-exactly-as-the-decoder-does] cks.val == size && cks.i == *info
+//@ at cks assert [vector-size-checked-exactly-as-the-decoder-does] cks.val == uint64(il.res) && cks.val == size && cks.i == *info
 //@ at psize assert [size-prefix-is-the-encoded-size-of-the-elements] psize.v == size && cks.res == nil && len(scratch) == 8
 //@ at rec assert [struct-field-encoded-with-its-own-tag-info] rec.info == fieldInfo
